@@ -124,7 +124,11 @@ void init_socket_peer(struct socket_peer *p, struct buffered_reader *reader, boo
 {
 	struct buffered_socket *bs = (struct buffered_socket *)reader->this_ptr;
 
-	init_peer(&p->peer, is_local_connection, bs->ev.loop);
+	if (unlikely(init_peer(&p->peer, is_local_connection, bs->ev.loop) < 0)) {
+		reader->close(reader->this_ptr);
+		cjet_free(p);
+		return;
+	}
 	p->peer.send_message = send_message;
 	p->peer.close = close_jet_peer;
 
